@@ -6,7 +6,9 @@ read-modify-write, `find` as the backwards day walk with year/month skipping) ov
 calendar `Model/Cal.lean`.  `journalOf es` is the store after the messages `es` were appended
 in that order to an empty store; every theorem below holds for EVERY list `es` (any completion
 instants — any time of day, any day, month, year — duplicates, any run ids, any outcomes),
-every window, every limit and every clock reading `now`.
+every window, every limit and every clock reading `now`.  A query bound is any timezone-aware
+datetime: `⟨instant, offset⟩`, the instant it denotes and the UTC offset (minutes) it is written
+with; the theorems speak about the instants only, whatever the offsets.
 
 Definitions regenerated from the source on every run (`Generated/ChronicleGen.lean`): the keep
 test of `_load` (strictness of both bounds, status test), the two status words, the key list of
@@ -17,7 +19,8 @@ import DawgieVerif.Proofs.ChronicleB
 
 namespace DawgieVerif.C18
 open DawgieVerif.Cal DawgieVerif.Chronicle
-open DawgieVerif.Generated.Chronicle (requiredKeys statusWord apiFailed apiSucceeded ApiCall)
+open DawgieVerif.Generated.Chronicle (requiredKeys statusWord apiFailed apiSucceeded ApiCall
+  normalisesAfter normalisesBefore)
 
 /-! ### a concrete history used by the non-vacuity examples -/
 
@@ -76,87 +79,102 @@ theorem history_complete (es : List Entry) : (allEntries (journalOf es)).Perm es
 
 /-- Both bounds given (any limit is ignored): exactly the recorded entries of the requested
     outcome completed strictly inside the window, newest first. -/
-theorem find_window (es : List Entry) (now a b : Int) (limit : Option Int) (succ : Bool) :
+theorem find_window (es : List Entry) (now : Int) (a b : Bound) (limit : Option Int) (succ : Bool) :
     ∃ r, find (journalOf es) now (some a) (some b) limit succ = .ok r ∧
-      r.Perm (wanted es a b succ) ∧ NewestFirst r := by
-  refine ⟨_, ?_, (collect_full es a b succ).1, (collect_full es a b succ).2⟩
-  simp [find, walk_none]
+      r.Perm (wanted es a.instant b.instant succ) ∧ NewestFirst r := by
+  refine ⟨_, ?_, (collect_full es a.instant b.instant succ).1, (collect_full es a.instant b.instant succ).2⟩
+  simp [find, walk_none, normalisesAfter, normalisesBefore]
 
 /-- non-vacuity (the replay of the repaired finding F-C18a): the entry of 03-09 20:00 lies later
     in its day than the upper bound's time of day 15:00 and is returned; the failure and the
     2023 entry are not -/
-example : (find (journalOf hist) (t 2025 1 1 0 0) (some (t 2024 3 1 0 0)) (some (t 2024 3 10 15 0))
+example : (find (journalOf hist) (t 2025 1 1 0 0) (some ⟨t 2024 3 1 0 0, 0⟩) (some ⟨t 2024 3 10 15 0, 0⟩)
     (some 1) true).toOption = some [e2, e1] := by decide +kernel
 
 /-- No lower bound (only `before`, only `limit`, or both): the newest `limit` entries of the
     window `(1980-01-01, before or now)`; all of them when no limit is given. -/
-theorem find_newest (es : List Entry) (now : Int) (before : Option Int) (limit : Option Int)
+theorem find_newest (es : List Entry) (now : Int) (before : Option Bound) (limit : Option Int)
     (succ : Bool) (h : before ≠ none ∨ limit ≠ none) :
-    ∃ full, full.Perm (wanted es floorInstant (before.getD now) succ) ∧ NewestFirst full ∧
+    ∃ full, full.Perm (wanted es floorInstant ((before.map (·.instant)).getD now) succ) ∧ NewestFirst full ∧
       find (journalOf es) now none before limit succ =
         .ok (match limit with | none => full | some n => full.take n.toNat) := by
-  refine ⟨_, (collect_full es floorInstant (before.getD now) succ).1,
-    (collect_full es floorInstant (before.getD now) succ).2, ?_⟩
+  refine ⟨_, (collect_full es floorInstant ((before.map (·.instant)).getD now) succ).1,
+    (collect_full es floorInstant ((before.map (·.instant)).getD now) succ).2, ?_⟩
   cases limit with
   | none =>
     cases before with
     | none => simp at h
-    | some b => simp [find, walk_none]
+    | some b => simp [find, walk_none, normalisesAfter, normalisesBefore]
   | some n =>
-    have hc : ¬ (((none : Option Int).isNone = true) ∧ (before.isNone = true) ∧
-        ((some n : Option Int).isNone = true)) := by simp
-    simp only [find, if_neg hc, Option.isSome_none, Bool.false_eq_true, false_and, if_false,
-      Int.lt_irrefl]
-    rw [pyFirst_walk]
-    cases before <;> rfl
+    cases before with
+    | none => simp [find, normalisesAfter, normalisesBefore, pyFirst_walk]
+    | some b => simp [find, normalisesAfter, normalisesBefore, pyFirst_walk]
 
 /-- non-vacuity: the newest three successes reach across nine missing months and a missing
     year directory -/
 example : (find (journalOf hist) (t 2025 1 1 0 0) none none (some 3) true).toOption
     = some [e2, e1, e4] ∧
-    (find (journalOf hist) (t 2025 1 1 0 0) none (some (t 2024 3 10 10 0)) (some 1) true).toOption
+    (find (journalOf hist) (t 2025 1 1 0 0) none (some ⟨t 2024 3 10 10 0, 0⟩) (some 1) true).toOption
     = some [e1] := by decide +kernel
 
 /-- Lower bound and limit (no upper bound): the property fixes no truncation rule here; what
     is returned is a sub-multiset of the window `(after, now)`, newest first, at most `limit`
     long — and the whole window when no limit is given. -/
-theorem find_sound (es : List Entry) (now a : Int) (limit : Option Int) (succ : Bool) :
-    ∃ r full, find (journalOf es) now (some a) none limit succ = .ok r ∧
-      full.Perm (wanted es a now succ) ∧ NewestFirst full ∧ r.Sublist full ∧ NewestFirst r ∧
+theorem find_sound (es : List Entry) (now : Int) (a' : Bound) (limit : Option Int) (succ : Bool) :
+    ∃ r full, find (journalOf es) now (some a') none limit succ = .ok r ∧
+      full.Perm (wanted es a'.instant now succ) ∧ NewestFirst full ∧ r.Sublist full ∧ NewestFirst r ∧
       (∀ n, limit = some n → r.length ≤ n.toNat) ∧ (limit = none → r = full) := by
+  obtain ⟨a, oa⟩ := a'
   have hfull := collect_full es a now succ
   cases limit with
   | none =>
     refine ⟨collect (journalOf es) a now (statusWord succ) (dayOf a) (dayOf now), _, ?_,
       hfull.1, hfull.2, List.Sublist.refl _, hfull.2, ?_, fun _ => rfl⟩
-    · simp [find, walk_none]
+    · simp [find, walk_none, normalisesAfter, normalisesBefore]
     · intro n hn; cases hn
   | some n =>
     by_cases ho : floorInstant < a
     · have hl := pyLast_walk (journalOf es) a now n (statusWord succ)
-      refine ⟨pyLast (walk (journalOf es) a now (some n) (statusWord succ) now []) n, _, ?_,
+      refine ⟨pyLast (walk (journalOf es) a now (dayOf a) (some n) (statusWord succ) now []) n, _, ?_,
         hfull.1, hfull.2, hl.1, List.Pairwise.sublist hl.1 hfull.2, ?_, ?_⟩
-      · simp [find, ho]
+      · simp [find, ho, normalisesAfter, normalisesBefore]
       · intro m hm; cases hm; exact hl.2
       · intro hn; cases hn
-    · refine ⟨pyFirst (walk (journalOf es) a now (some n) (statusWord succ) now []) n, _, ?_,
+    · refine ⟨pyFirst (walk (journalOf es) a now (dayOf a) (some n) (statusWord succ) now []) n, _, ?_,
         hfull.1, hfull.2, ?_, ?_, ?_, ?_⟩
-      · simp [find, ho]
+      · simp [find, ho, normalisesAfter, normalisesBefore]
       · rw [pyFirst_walk]; exact List.take_sublist _ _
       · rw [pyFirst_walk]; exact List.Pairwise.sublist (List.take_sublist _ _) hfull.2
       · intro m hm; cases hm; rw [pyFirst_walk, List.length_take]; omega
       · intro hn; cases hn
 
-example : (find (journalOf hist) (t 2025 1 1 0 0) (some (t 2023 1 1 0 0)) none (some 1) true).toOption
+example : (find (journalOf hist) (t 2025 1 1 0 0) (some ⟨t 2023 1 1 0 0, 0⟩) none (some 1) true).toOption
     = some [e2] ∧
-    (find (journalOf hist) (t 2025 1 1 0 0) (some (t 2023 1 1 0 0)) none none false).toOption
+    (find (journalOf hist) (t 2025 1 1 0 0) (some ⟨t 2023 1 1 0 0, 0⟩) none none false).toOption
     = some [e3, e5] := by decide +kernel
 
+/-- The answer depends on the instants the bounds denote, not on the UTC offsets they are written
+    with: `before=2024-03-10T22:00-05:00` and `before=2024-03-11T03:00+00:00` give the same list. -/
+theorem find_offset_invariant (j : Journal) (now : Int) (after after' before before' : Option Bound)
+    (limit : Option Int) (succ : Bool)
+    (ha : after.map (·.instant) = after'.map (·.instant))
+    (hb : before.map (·.instant) = before'.map (·.instant)) :
+    find j now after before limit succ = find j now after' before' limit succ := by
+  cases after <;> cases after' <;> simp at ha <;> cases before <;> cases before' <;> simp at hb <;>
+    simp [find, normalisesAfter, normalisesBefore, *]
+
+/-- non-vacuity (the replay of the repaired time-zone finding): the bound 22:00-05:00 on the 10th is
+    03:00 UTC on the 11th; the entry of 01:00 UTC on the 11th is inside the window -/
+example : (find (journalOf [⟨t 2024 3 11 1 0, 1, "T", "a.b", "success", 1⟩]) (t 2025 1 1 0 0)
+    (some ⟨t 2024 3 1 0 0, 0⟩) (some ⟨t 2024 3 11 3 0, -300⟩) none true).toOption
+    = some [⟨t 2024 3 11 1 0, 1, "T", "a.b", "success", 1⟩] := by decide +kernel
+
 /-- `find` raises exactly when all three arguments are `None`. -/
-theorem find_rejects (j : Journal) (now : Int) (after before limit : Option Int) (succ : Bool) :
+theorem find_rejects (j : Journal) (now : Int) (after before : Option Bound) (limit : Option Int)
+    (succ : Bool) :
     find j now after before limit succ = .error .valueError ↔
       (after = none ∧ before = none ∧ limit = none) := by
-  cases after <;> cases before <;> cases limit <;> simp [find] <;> split <;> simp
+  cases after <;> cases before <;> cases limit <;> simp [find] <;> (try split) <;> (try split) <;> simp
 
 example : find (journalOf hist) 0 none none none true = .error .valueError := by
   rw [find_rejects]; exact ⟨rfl, rfl, rfl⟩
